@@ -1,6 +1,7 @@
 import Genshi.Wire
 import Genshi.Model.Subst
 import Genshi.Model.SubstEmit
+import Genshi.Model.SubstRead
 namespace Driver.C01
 open Genshi Genshi.Subst Genshi.Sexp
 
@@ -129,6 +130,12 @@ def handle : List Sexp → Option Sexp
       let evs ← evs.mapM ev?
       if inCacheDefectZone m strip evs then pure (.atom "unmodelled") else
       pure (.str (serialize m strip evs))
+  -- the specification-side reader on a document
+  | [.atom "read", m, .str doc] => do
+      let m ← method? m
+      match readDoc m doc with
+      | some evs => pure (.list (evs.map evOut))
+      | none => pure (.atom "rejected")
   | [.atom "text", m, .str v] => do let m ← method? m; pure (.str (emitText m v))
   | [.atom "attr", .str v] => some (.str (emitAttr v))
   | _ => none
